@@ -25,13 +25,17 @@ def gen_lines(rng, n):
 CORPUS = ['lay 4 1 1 64 64', 'lay 4 64 64 1 1', 'lay 3 0 1 8 8 0 64 32 32', 'lay 1 4096 64 4096 1', 'lay 16 1 1 2 2 4 4 8 8 16 16 32 32']
 
 
-def sanitizer_run(rng, nscripts):
+def sanitizer_run(rng, nscripts, only=None):
     """thorough tier: the same entity-manager scripts under AddressSanitizer + UBSan (validation of what no theorem carries)"""
     drv, err = vlib.build_driver('em_driver', variant='asan')
     if err:
         return [('build', err)], 0
     prof = dict(mgr.PROFILE_BASIC)
-    scripts = [('a%d' % i, mgr.gen_script(rng.fork('asan%d' % i), 60, prof)) for i in range(nscripts)]
+    prof['pals'] = [0, 1, 2, 3, 4, 5, 6, 7, 12, 13]
+    prof['late_reg'] = 60           # component types registered on first use, also while commands are parked in the buffers
+    prof['teardown_anywhere'] = True
+    prof['weights'] = dict(prof['weights'], lock=10, unlock=7, clone=8, assign=20)
+    scripts = only or (SAN_CORPUS + [('a%d' % i, mgr.gen_script(rng.fork('asan%d' % i), 60, prof)) for i in range(nscripts)])
     wd = os.path.join(vlib.BUILD, 'work', PROP)
     os.makedirs(wd, exist_ok=True)
     bad = []
@@ -56,6 +60,19 @@ def sanitizer_run(rng, nscripts):
             m = re.search(r'(ERROR: AddressSanitizer[^\n]*|[^\n]*runtime error[^\n]*)', errtxt)
             bad.append((name, (m.group(1) if m else 'crash') + '\n' + '\n'.join(lines)))
     return bad, len(scripts)
+
+
+SAN_CORPUS = [
+    # a parked assign keeps a pointer to the component's description; later first-use registrations grow the factory's table;
+    # the world is destroyed while still locked (fixed defect: the table reallocated, the pointer dangled)
+    ('late_registration_teardown_locked', ['maxthreads 16', 'threads 1', 'reg 2', 'reg 0', 'update', 'create 0 0', 'create 0 0', 'lock', 'assign 0 #0 2 5',
+                                           'assign 0 #1 1 7', 'assign 0 #1 3 -', 'assign 0 #1 4 1', 'assign 0 #1 5 -', 'assign 0 #1 7 2', 'teardown']),
+    ('late_registration_unlock', ['maxthreads 16', 'threads 2', 'reg 3', 'update', 'create 0 3', 'create 0', 'lock', 'assign 0 #1 3 4', 'assign 0 #1 2 5',
+                                  'create 0 0 1', 'assign 0 #0 4 -', 'assign 0 #0 5 -', 'assign 0 #0 7 1', 'assign 0 #0 12 3', 'assign 0 #0 13 -', 'unlock', 'clone #0', 'clone #1']),
+    # clone at the moments the id / location tables are exactly full (1, 2, 4, 8 entities, nothing recycled)
+    ('clone_at_table_capacity', ['maxthreads 16', 'threads 1', 'reg 0', 'reg 4', 'reg 12', 'update', 'create 0 0 4 12', 'set #0 0 11', 'clone #0', 'clone #0', 'clone #1',
+                                 'clone #0', 'clone #1', 'clone #0', 'clone #1', 'clone #0', 'clone #1', 'clone #0', 'clone #1', 'clone #0', 'clone #1', 'clone #0', 'clone #1', 'clone #0']),
+]
 
 
 DEFERRED_CORPUS = [
@@ -97,7 +114,7 @@ def run(tier, seed, replay=None):
     n = 200 if tier == 'quick' else 3000
     lines = [l.strip() for l in open(replay) if l.startswith('lay')] if replay else CORPUS + gen_lines(rng, n)
     cov = {'obligations': pr['obligations'], 'discharged': pr['discharged'], 'theorems': pr['theorems'],
-           'checker_cmd': 'make -C coq Properties_C10.vo; layout_driver vs extracted Layout; world_driver default-context worlds; (thorough) em_driver under ASan+UBSan',
+           'checker_cmd': 'make -C coq Properties_C10.vo; layout_driver vs extracted Layout; world_driver default-context worlds; em_driver under ASan+UBSan',
            'trusted_base': vlib.TRUSTED_BASE_COMMON}
     drv, err = vlib.build_driver('layout_driver')
     wdrv, err2 = vlib.build_driver('world_driver')
@@ -136,8 +153,11 @@ def run(tier, seed, replay=None):
     if not replay:
         em_fail, em_n = deferred_storage_run(rng, 60 if tier == 'quick' else 600)
     san_bad, san_n = ([], 0)
-    if tier == 'thorough' and not replay:
-        san_bad, san_n = sanitizer_run(rng, 150)
+    if not replay:
+        san_bad, san_n = sanitizer_run(rng, 30 if tier == 'quick' else 300)
+    elif not lines:
+        # replay of a sanitizer report: the script below its first line, under ASan+UBSan again
+        san_bad, san_n = sanitizer_run(rng, 0, only=[('replay', [l.rstrip('\n') for l in open(replay) if l.strip() and not l.startswith('#')])])
     cov.update({'evaluations': len(lines) + san_n, 'distinct_nontrivial': len(set(lines)), 'sanitizer_scripts': san_n,
                 'rule': 'random component sets (1-6 components, sizes 0..4096, power-of-two alignments 1..64, capacities 1..16); distinct input lines',
                 'tierA_failures': len(fa) + len(san_bad), 'tierB_divergences': len(div), 'samples': lines[:5]})
@@ -163,4 +183,4 @@ def run(tier, seed, replay=None):
     return {'violations': violations, 'known': known, 'coverage': cov, 'level': 'proof',
             'assumptions': ['sizeof is a multiple of alignof; alignments are powers of two; offsets do not overflow 32 bits',
                             'the allocator returns memory aligned as requested (aligned_alloc)',
-                            'use-after-free / uninitialised reads / language-level UB are not provable in the model: validated by ASan+UBSan in the thorough tier']}
+                            'use-after-free / uninitialised reads / language-level UB are not provable in the model: validated by ASan+UBSan runs of generated histories (more in the thorough tier)']}
